@@ -13,15 +13,17 @@ type Mutex struct{ held bool }
 func (m *Mutex) Lock() {
 	for {
 		op := &sched.Op{Kind: "lock", Obj: m}
-		sched.Yield(op)
+		scheduled := sched.Yield(op)
 		if !m.held {
 			m.held = true
 			op.OK = true
 			return
 		}
 		op.Kind = "blocked"
-		if sched.S == nil {
-			panic("sched/sync: Lock on a held mutex outside the scheduler")
+		if !scheduled {
+			// called from outside the scheduled threads (set-up code, or the harness observing
+			// state between steps) while a paused thread holds the mutex: waiting would never end
+			panic("sched/sync: Lock on a mutex held by a paused thread, from outside the scheduler")
 		}
 	}
 }
